@@ -362,7 +362,11 @@ C10Enrich(pr, dnsb, pub, via) ==
                 !.public_ip = (pub # "none"), !.pub_mode = IF pub = "none" THEN "ok" ELSE pub,
                 !.query = "target=" \o T4 \o "&max-ttl=4&traceroute-queries=1&e2e-queries=1&timeout=300&reverse-dns=true&protocol=" \o pr[1] \o (IF pub # "none" THEN "&source-public-ip=true" ELSE "")],
      path |-> PathFor(pr[1], pr[3], 1, 4, 3, 0)]
-C10ReqAll(u) == { C10Enrich(pr, d, pub, via) : pr \in {<<"udp", "", FALSE>>, <<"icmp", "", FALSE>>}, via \in {"lib", "http"},
+\* a query fails while the public-IP provider is still being asked: the error is returned with nothing left running
+C10EnrichFail(pr, pub, via) ==
+    [C10Enrich(pr, "n-a", pub, via) EXCEPT !.id = @ \o "/query_fails", !.label = @ \o "/query_fails"]
+    @@ [faults |-> <<[op |-> "write", k |-> 1, class |-> "fatal", run |-> 1]>>]
+C10ReqAll(u) == { C10EnrichFail(pr, pub, via) : pr \in {<<"udp", "", FALSE>>, <<"icmp", "", FALSE>>}, pub \in {"slow", "ok", "fail"}, via \in {"lib", "http"} } \cup { C10Enrich(pr, d, pub, via) : pr \in {<<"udp", "", FALSE>>, <<"icmp", "", FALSE>>}, via \in {"lib", "http"},
                                                d \in {"+300:n-slow", "+2600:n-slower", "+4900:n-slowest", "!boom", "~", "n-a;+2600:n-b"}, pub \in {"none", "ok", "slow", "fail"} }
 
 ---------------------------------------------------------------------------
